@@ -41,6 +41,7 @@ def ma_task(datatype):
         st = model.estimator_stubs(dom)
         I = tc.interp(stubs={"spectrum.yulewalker.aryule": st["spectrum.yulewalker.aryule"]})
         hints = {"fn": "ma", "datatype": datatype}
+        tc.native = ("ma", hints)
 
         def thunk(I):
             N = dom.input_int("N")
@@ -101,6 +102,7 @@ def arma_task(datatype, small_P):
                  "spectrum.arma.ma": ma_stub}
         I = tc.interp(stubs=stubs)
         hints = {"fn": "arma_estimate", "datatype": datatype, "small_P": small_P}
+        tc.native = ("arma", hints)
 
         def thunk(I):
             seen.clear()
@@ -168,6 +170,7 @@ def shape_task(N, P_, Q, lag, cx):
         from pyvc.interp import Interp
         I = Interp(tc.program, dom, tc.lib)
         hints = {"fn": "shapes", "N": N, "P": P_, "Q": Q, "lag": lag, "complex": cx}
+        tc.native = ("arma", hints)
 
         def thunk(I):
             x = dom.data_array(N, cx)
